@@ -63,6 +63,12 @@ def harness(E, ctx, aux, desc):
     fs = check(desc)
     if any(f["kind"] == "skip" for f in fs):
         ctx.feature("stage-raised")
+    if (desc.get("route") or "direct") != "direct":
+        ctx.nontrivial += 1
+        for f in fs:
+            if f["kind"] != "skip":
+                ctx.fail(f["kind"], f["signature"], desc, f["detail"])
+        return
     g = build_scfg(desc)
     orig = orig_map(desc)
     try:
